@@ -1,4 +1,5 @@
 import SSVerif.Model.SearchLex
+import SSVerif.Model.SearchLater
 import SSVerif.Model.LexFlatHyps
 import SSVerif.Generated.HistConsts
 import Std.Data.HashMap
@@ -12,7 +13,9 @@ import Driver.Util
   dumped `dict2pid` tables and `M` the flat model from the DIRECT model-definition lookups (`D*` lines) for the same triphones,
 * `R pre`     `AllCleared` on the state before `fsg_search_start`,
 * `R start`   `startRelB` (pre-state → state after start) and `searchInvB`,
-* `R step k`  `stepRelB` (state after k−1 frames → state after k frames) and `searchInvB`; and, for the exact
+* `R step k`  `stepRelB` (state after k−1 frames → state after k frames), `searchInvB` and (last field, also of `R start`)
+              `Later.laterInvB` (Model/SearchLater.lean: word entries ≥ 2 frames after their predecessors, live inner/exit
+              states hold entries ≥ 2 frames old — proved for every reachable state in Props/C01Later.lean); and, for the exact
               model of `hmm_vit_eval_3st_lr` with history indices (`evalHist3`), whether every HMM that
               was evaluated and stayed active holds exactly what the model computes from the dumped
               emission scores and transition matrix,
@@ -35,6 +38,8 @@ structure Dump where
   entIdx : List Nat := []
   /-- per evaluated pnode: tmat id, emission scores -/
   vs : List (Nat × Nat × List Int) := []
+  /-- `B` line: `fsgs->bestscore`, `beam`, `pbeam`, `wbeam` after the step -/
+  beams : Option (Int × Int × Int × Int) := none
 
 structure Cov where
   steps : Nat := 0
@@ -57,6 +62,8 @@ structure Cov where
   maxActive : Nat := 0
   evalExact : Nat := 0        -- HMMs compared with evalHist3
   evalSkipped : Nat := 0
+  guardJudged : Nat := 0      -- frames on which fsgs->bestscore was compared with frameBest of evalBest3
+  guardExits : Nat := 0       -- word entries whose score was checked against bestscore + wbeam
 
 structure Utt where
   tag : String := ""
@@ -324,13 +331,36 @@ def evalExact (u : Utt) (s s' : SState) (d : Dump) : (Bool × Nat × Nat × Stri
           ok := false
   return (ok, n, skipped, why)
 
+/-- the score guard of a word exit (Model/SearchLater.lean, Props/C01Later.lean), on the `B` line of the dump:
+* `fsgs->bestscore` = `frameBest` of the values `evalBest3` gives for every HMM evaluated in this frame,
+* `ThreshLive bestscore wbeam` (the word threshold lies above `WORST_SCORE`),
+* `Fires bestscore wbeam e.score` for every word entry `e` made in this frame.
+`(bestOk, threshOk, firesOk, evaluated?)`; a frame without active HMMs or with HMMs the exact model does not cover
+leaves `bestOk` unjudged (true) -/
+def guardCheck (u : Utt) (g : Fsg) (s s' : SState) (d : Dump) : Bool × Bool × Bool × Bool :=
+  match d.beams with
+  | none => (false, false, false, false)
+  | some (best, _, _, wbeam) =>
+    let new := s'.hist.toList.drop s.hist.size
+    let exits := new.filter fun e => !isNullEntry g e
+    let fires := exits.all fun e => decide (Fires best wbeam e.score)
+    let covered := u.nst == 3 && !u.mpxOrOdd && d.vs.all fun (_, tm, _) => (u.tmats.find? (·.1 == tm)).isSome
+    if s.active.isEmpty then (true, true, fires && exits.isEmpty, false)
+    else
+      let bs := d.vs.map fun (p, tm, es) =>
+        match u.tmats.find? (·.1 == tm) with
+        | some (_, tp) => evalBest3 tp (fun k => es.getD k 0) (s.hmm p)
+        | none => 0
+      let bestOk := !covered || (frameBest bs == best && d.vs.length == s.active.length)
+      (bestOk, decide (ThreshLive best wbeam), fires, covered)
+
 def finishDump (u : Utt) (d : Dump) : Utt := Id.run do
   let lt := lexTree u
   let g := fsg u
   let mut u := u
   let mut out : List String := []
   if !u.ltDone then
-    out := out ++ [s!"R lt {b01 (decide (LexTreeOK lt g))} {b01 lt.chainsEndB} {lt.nodes.size} {b01 (!u.mpxOrOdd)}"]
+    out := out ++ [s!"R lt {b01 (decide (LexTreeOK lt g))} {b01 lt.chainsEndB} {lt.nodes.size} {b01 (!u.mpxOrOdd)} {b01 (decide (LaterTopo lt.nst))}"]
     out := out ++ [s!"R build {buildCompare u g}"]
     out := out ++ [s!"R lexhyps {lexHypsReport u}"]
     out := out ++ [s!"R consts {b01 (u.worst == SSVerif.Generated.Search.worstScore && u.shift == SSVerif.Generated.senscrShift && u.tmatWorst == SSVerif.Generated.Search.tmatWorstScore)}"]
@@ -346,18 +376,24 @@ def finishDump (u : Utt) (d : Dump) : Utt := Id.run do
   | "start" =>
     let s0 := u.prev.getD s'
     let r := startRelB u.shift lt g s0 s'
-    out := out ++ [s!"R start {b01 r} {b01 (searchInvB lt g s')} {b01 (idxOk && s'.hist.size == d.nentries)} {b01 quiet} {s'.hist.size} {s'.active.length}"]
+    out := out ++ [s!"R start {b01 r} {b01 (searchInvB lt g s')} {b01 (idxOk && s'.hist.size == d.nentries)} {b01 quiet} {s'.hist.size} {s'.active.length} {b01 (Later.laterInvB lt g s')}"]
     u := { u with prev := some s', table := s'.hist, cov := { u.cov with startNulls := u.cov.startNulls + (s'.hist.size - 1) } }
   | "step" =>
     let s := u.prev.getD s'
     let r := stepRelB u.shift lt g s s'
     let (ex, nEx, nSk, whyEx) := evalExact u s s' d
     let diag := if r then "-" else diagStep lt g u.shift s s'
-    out := out ++ [s!"R step {s'.frame} {b01 r} {b01 (searchInvB lt g s')} {b01 (idxOk && s'.hist.size == d.nentries)} {b01 quiet} {b01 ex} {s'.hist.size} {s'.active.length}"]
+    let (gBest, gThresh, gFires, gJudged) := guardCheck u g s s' d
+    let nWordNew := ((s'.hist.toList.drop s.hist.size).filter fun e => !isNullEntry g e).length
+    out := out ++ [s!"R step {s'.frame} {b01 r} {b01 (searchInvB lt g s')} {b01 (idxOk && s'.hist.size == d.nentries)} {b01 quiet} {b01 ex} {s'.hist.size} {s'.active.length} {b01 (Later.laterInvB lt g s')} {b01 gBest} {b01 gThresh} {b01 gFires}"]
+    if !(gBest && gThresh && gFires) then out := out ++ [s!"R why guard beams={d.beams} exits={((s'.hist.toList.drop s.hist.size).filter fun e => !isNullEntry g e).map (·.score)} evaluated={d.vs.length} active={s.active.length}"]
     if !r then out := out ++ [s!"R why {diag}"]
     if !ex then out := out ++ [s!"R whyeval {whyEx}"]
-    u := { u with prev := some s', table := s'.hist,
-                  cov := { covStep lt g s s' u.cov with evalExact := u.cov.evalExact + nEx, evalSkipped := u.cov.evalSkipped + nSk } }
+    let cov1 := covStep lt g s s' u.cov
+    let covG : Cov := { cov1 with evalExact := u.cov.evalExact + nEx, evalSkipped := u.cov.evalSkipped + nSk,
+                                  guardJudged := u.cov.guardJudged + (if gJudged then 1 else 0),
+                                  guardExits := u.cov.guardExits + (if d.beams.isSome then nWordNew else 0) }
+    u := { u with prev := some s', table := s'.hist, cov := covG }
   | "finish" =>
     let s := u.prev.getD s'
     let m := finish lt s
@@ -438,6 +474,10 @@ def feed (u : Utt) (ws : List String) : Utt :=
   | ["S", what, fr, ne, an, pend] =>
     { u with cur := some { what, frame := (parseInt fr).getD 0, nentries := (parseNat ne).getD 0, actNext := an ≠ "0",
                            pending := (parseNat pend).getD 1 } }
+  | ["B", b, bm, pb, wb] =>
+    match u.cur, parseInt b, parseInt bm, parseInt pb, parseInt wb with
+    | some d, some b, some bm, some pb, some wb => { u with cur := some { d with beams := some (b, bm, pb, wb) } }
+    | _, _, _, _, _ => { u with bad := "B" :: u.bad }
   | "A" :: rest =>
     match u.cur with
     | some d => { u with cur := some { d with active := rest.map fun x => (optId ((parseInt x).getD (-2))).getD 1000000000 } }
@@ -476,7 +516,7 @@ def feed' (u : Utt) (ws : List String) : Utt :=
   | _, _ => feed u ws
 
 def covLine (c : Cov) : String :=
-  s!"R cov steps={c.steps} exits={c.exits} nulls={c.nulls} startNulls={c.startNulls} kept={c.kept} dropped={c.dropped} newly={c.newly} reentered={c.reentered} self0={c.self0} fromParent={c.fromParent} fromEntry={c.fromEntry} outKept={c.outKept} outFrom={c.outFrom} innerSelf={c.innerSelf} innerPrev={c.innerPrev} liveStates={c.liveStates} deadStates={c.deadStates} maxActive={c.maxActive} evalExact={c.evalExact} evalSkipped={c.evalSkipped}"
+  s!"R cov steps={c.steps} exits={c.exits} nulls={c.nulls} startNulls={c.startNulls} kept={c.kept} dropped={c.dropped} newly={c.newly} reentered={c.reentered} self0={c.self0} fromParent={c.fromParent} fromEntry={c.fromEntry} outKept={c.outKept} outFrom={c.outFrom} innerSelf={c.innerSelf} innerPrev={c.innerPrev} liveStates={c.liveStates} deadStates={c.deadStates} maxActive={c.maxActive} evalExact={c.evalExact} evalSkipped={c.evalSkipped} guardJudged={c.guardJudged} guardExits={c.guardExits}"
 
 partial def loop (hin : IO.FS.Stream) (hout : IO.FS.Stream) (u : Utt) : IO Unit := do
   let line ← hin.getLine
@@ -500,7 +540,7 @@ partial def loop (hin : IO.FS.Stream) (hout : IO.FS.Stream) (u : Utt) : IO Unit 
   | [] => loop hin hout u
   | ">" :: _ => loop hin hout u
   | w :: _ =>
-    if ["K", "SF", "SA", "LT", "P", "R", "T", "S", "A", "M", "E", "X", "V", "LI", "LC", "LW", "LR", "LD", "LN", "LS", "DR", "DD", "DN", "DS"].contains w then loop hin hout (feed' u ws)
+    if ["K", "SF", "SA", "LT", "P", "R", "T", "S", "A", "B", "M", "E", "X", "V", "LI", "LC", "LW", "LR", "LD", "LN", "LS", "DR", "DD", "DN", "DS"].contains w then loop hin hout (feed' u ws)
     else loop hin hout u      -- replies of the other harness commands
 
 def main : IO Unit := do
